@@ -240,9 +240,8 @@ func (ef *Filter) Process(ctx context.Context, e *eventlogger.Event) (*eventlogg
 		}
 		if pKind != reflect.Map {
 			// okay, we've dealt with the "Taggable" things, let's check for other
-			// fields that need to be filtered, but be sure to ignore taggable
-			// on the next recursion or will be in an infinite loop
-			opts := append(opts, withIgnoreTaggable())
+			// fields that need to be filtered (the fields of the struct that are
+			// Taggable themselves have tags of their own, which apply to them)
 			if err := ef.filterField(ctx, payloadValue, filterOverrides, tm, opts...); err != nil {
 				return nil, fmt.Errorf("%s: %w", op, err)
 			}
@@ -454,11 +453,9 @@ func (ef *Filter) filterField(ctx context.Context, v reflect.Value, filterOverri
 			}
 			if fkind != reflect.Map {
 				// okay, we've dealt with the "Taggable" things, let's check for other
-				// fields that need to be filtered, but be sure to ignore taggable
-				// on the next recursion or will be in an infinite loop
-				// (a new slice, so the fields that follow keep their own options)
-				ignoreOpt := append(append(make([]Option, 0, len(opt)+1), opt...), withIgnoreTaggable())
-				if err := ef.filterField(ctx, field, filterOverrides, tm, ignoreOpt...); err != nil {
+				// fields that need to be filtered (the fields of the struct that are
+				// Taggable themselves have tags of their own, which apply to them)
+				if err := ef.filterField(ctx, field, filterOverrides, tm, opt...); err != nil {
 					return fmt.Errorf("%s: %w", op, err)
 				}
 			} else if err := tm.trackMap(&tMap{value: field}); err != nil {
